@@ -304,6 +304,12 @@ type htlcWorkload struct {
 	newSeq   int
 	escrow   string
 	shared   bool // on a multi-module chain: do not pay third-party module accounts (gov/farm keep books on their balances)
+
+	// GenesisBorn > 0: the chain's genesis already holds that many open ordinary contracts (hash locks written in upper,
+	// lower and mixed case hex, all of which genesis validation accepts); GenesisBase is the chain's initial height
+	GenesisBorn int
+	GenesisBase int64
+	genBorn     []*htBook
 }
 
 func (w *htlcWorkload) SetQuiet() { w.shared = true }
@@ -408,7 +414,39 @@ func (w *htlcWorkload) Genesis(cdc codec.Codec, gs map[string]json.RawMessage) {
 	}
 	// previous block time: the default genesis takes the host clock; a fixed instant in the past keeps the
 	// first block deterministic (its elapsed time exceeds every period, so every window starts at block 1)
-	g := htlctypes.NewGenesisState(params, []htlctypes.HTLC{}, supplies, time.Unix(0, 0).UTC())
+	var born []htlctypes.HTLC
+	escrowed := sdk.NewCoins()
+	for i := 0; i < w.GenesisBorn && len(accs) >= 3; i++ {
+		sender, to := accs[(1+i)%len(accs)].GetAddress(), accs[(2+i)%len(accs)].GetAddress()
+		amt := sdk.NewCoins(sdk.NewInt64Coin("tka", int64(1000+7*i)))
+		secret := w.secret()
+		lock := htlcLock(secret, 0)
+		id := hex.EncodeToString(htlcID(sender, to, amt, lock))
+		lockText := strings.ToUpper(hex.EncodeToString(lock))
+		switch i % 3 {
+		case 1:
+			lockText = strings.ToLower(lockText)
+		case 2:
+			lockText = strings.ToLower(lockText[:32]) + lockText[32:]
+		}
+		if w.GenesisBase < 1 {
+			w.GenesisBase = 1
+		}
+		expiry := uint64(w.GenesisBase) + uint64(30+5*i)
+		born = append(born, htlctypes.HTLC{Id: id, Sender: sender.String(), To: to.String(), Amount: amt, HashLock: lockText, ExpirationHeight: expiry, State: htlctypes.Open})
+		escrowed = escrowed.Add(amt...)
+		fate := []string{"early", "wrong-then-right", "refund", "Em1", "atE"}[i%5]
+		msg := &htlctypes.MsgCreateHTLC{Sender: sender.String(), To: to.String(), Amount: amt, HashLock: lockText, TimeLock: expiry - uint64(w.GenesisBase)}
+		w.genBorn = append(w.genBorn, &htBook{ID: id, Msg: msg, Secret: secret, LockKind: "right", Type: "plain", Fate: fate, Created: w.GenesisBase, Expiry: int64(expiry)})
+	}
+	if !escrowed.IsZero() {
+		bg.Balances = append(bg.Balances, banktypes.Balance{Address: htlcEscrow(), Coins: escrowed})
+		bg.Supply = bg.Supply.Add(escrowed...)
+		gs[banktypes.ModuleName] = cdc.MustMarshalJSON(&bg)
+	}
+	// previous block time: the default genesis takes the host clock; a fixed instant in the past keeps the
+	// first block deterministic (its elapsed time exceeds every period, so every window starts at block 1)
+	g := htlctypes.NewGenesisState(params, born, supplies, time.Unix(0, 0).UTC())
 	gs[htlctypes.ModuleName] = cdc.MustMarshalJSON(g)
 }
 
@@ -433,6 +471,28 @@ func (w *htlcWorkload) Attach(run *ev.Run, r *rig.Rig) {
 	w.script = append(w.script, htScript{Type: "plain", Fate: "bucket"}, htScript{Type: "mixed", Fate: "bucket"},
 		htScript{Type: "incoming", Fate: "fast", Arg: "tl"}, htScript{Type: "params", Fate: "limit-tighten"})
 	w.rng.Shuffle(len(w.script), func(i, j int) { w.script[i], w.script[j] = w.script[j], w.script[i] })
+	// contracts that came in through genesis: known to the book with their secrets, fates scheduled like any other
+	for _, b := range w.genBorn {
+		for i, a := range r.Accounts {
+			if a.Addr.String() == b.Msg.Sender {
+				b.Sender = i
+			}
+		}
+		w.register(b)
+		C, E := b.Created, b.Expiry
+		switch b.Fate {
+		case "early":
+			w.at(C+3+int64(w.rng.Intn(10)), htAction{Kind: "claim", ID: b.ID, Secret: "right", Timing: "early", Claimer: pick(w.rng, "to", "sender", "stranger")})
+		case "wrong-then-right":
+			t1 := C + 3 + int64(w.rng.Intn(10))
+			w.at(t1, htAction{Kind: "claim", ID: b.ID, Secret: pick(w.rng, "wrong-random", "wrong-flip"), Timing: "early", Claimer: "to"})
+			w.at(t1+2, htAction{Kind: "claim", ID: b.ID, Secret: "right", Timing: "early", Claimer: "to"})
+		case "Em1":
+			w.at(E-1, htAction{Kind: "claim", ID: b.ID, Secret: "right", Timing: "E-1", Claimer: "to"})
+		case "atE":
+			w.at(E, htAction{Kind: "claim", ID: b.ID, Secret: "right", Timing: "E", Claimer: "to"})
+		}
+	}
 }
 
 func (w *htlcWorkload) read() *htState {
@@ -1781,6 +1841,9 @@ func runHTLC(run *ev.Run, c int, mode string) {
 	w := newHTLCWorkload()
 	w.rng = run.Rng
 	w.Mode = mode
+	if c%2 == 1 {
+		w.GenesisBorn, w.GenesisBase = 5, boundaryHeight(c)
+	}
 	bal := sdk.NewCoins()
 	for _, dn := range []string{rig.BondDenom, "tka", "tkb"} {
 		bal = bal.Add(sdk.NewCoin(dn, toInt(pow2(150))))
@@ -1819,6 +1882,14 @@ func (d *htDirector) start() {
 	s := htlcSnapshot(d.r, d.r.Ctx(), d.cache)
 	d.prev = s
 	d.lastTime = d.r.Time
+	for _, b := range d.w.genBorn {
+		lock, _ := hex.DecodeString(b.Msg.HashLock)
+		c := &htContract{ID: b.ID, Sender: b.Msg.Sender, To: b.Msg.To, Amount: b.Msg.Amount, Lock: lock, Created: b.Created, Expiry: b.Expiry, State: htlctypes.Open}
+		d.model[b.ID] = c
+		d.byExpiry[c.Expiry] = append(d.byExpiry[c.Expiry], b.ID)
+		c.Bucket = len(d.byExpiry[c.Expiry])
+		d.run.Count("genesis-born-contracts", 1)
+	}
 	for _, a := range s.Params.AssetParams {
 		sup, ok := s.Sup[a.Denom]
 		if !ok {
@@ -2325,6 +2396,13 @@ func (d *htDirector) onTxRejected(br *rig.BlockRecord, tx *rig.TxRecord, tag *ht
 				sec, _ := hex.DecodeString(m.Secret)
 				valid = c.State == htlctypes.Open && string(htlcLock(sec, c.Timestamp)) == string(c.Lock)
 			}
+		}
+		if valid && strings.Contains(tx.Result.Log, "invalid secret") {
+			// the chain calls a preimage of the open contract's hash lock invalid
+			run.Eval(1)
+			run.Violation(d.mode+":htlc:claim:preimage-of-open-contract-rejected-as-invalid-secret", map[string]any{"height": br.Height, "id": c.ID, "type": c.typ(), "log": logBrief(tx)},
+				"claim of open %s contract %s with the preimage of its hash lock was rejected as 'invalid secret' at height %d", c.typ(), htShort(c.ID), br.Height)
+			return
 		}
 		if valid {
 			run.Count("valid-claim-rejected(not judged)", 1)
